@@ -150,6 +150,9 @@ func (m *recMetrics) SetConnectionStatus(v float64, _ prometheus.Labels) {
 func (m *recMetrics) IncTransitions(l prometheus.Labels) {
 	m.in.w.point("Metrics.IncTransitions", m)
 	m.in.w.evL(Ev{K: "transition", I: m.in.spec.ID, S: l["from_state"], S2: l["to_state"]})
+	if d := m.in.spec.SlowDemoteMetric; d > 0 && l["from_state"] == "LEADER" && l["to_state"] == "FOLLOWER" {
+		time.Sleep(d) // a slow metrics backend (coarse scenarios only)
+	}
 }
 func (m *recMetrics) IncFailures(prometheus.Labels)                             {}
 func (m *recMetrics) IncAcquireAttempts(prometheus.Labels)                      {}
